@@ -153,6 +153,8 @@ impl Array {
                     }
                 });
 
+                // the delta has its summed dimensions collapsed into one
+                let x = x.reshape(target_clone.clone());
                 vec![Some(Array::sliced_op(
                     vec![&x],
                     &op,
